@@ -261,8 +261,8 @@ pub fn c13(cfg: &Cfg) -> i32 {
 pub fn c14(cfg: &Cfg) -> i32 {
     let mix = Mix { w1: (700, 20000), w2: (700, 20000), w3: (200, 4000), w7: (20, 400), tree_per_mille: 10, ..Mix::default() };
     let sink = run_mix(cfg, &mix, &|| Box::new(C14::default()));
-    let floors = vec![floor("states_after_1_steps", 100_000, 1_000_000), floor("states_after_2_steps", 100_000, 1_000_000), floor("states_after_3_steps", 100_000, 1_000_000), floor("states_in_turns_with_capture", 5000, 50_000)];
-    let mut rep = base_report("states_after_1_steps", "W1/W2/W3/W7 games plus full turn trees at sampled turn starts; at every state piece_board_for_step(i) for 0 <= i <= k is decoded and compared with the board the observer recorded after i steps of this turn. distinct_nontrivial = distinct mid-turn (state, turn-start board) pairs.", floors);
+    let floors = vec![floor("states_after_1_steps", 100_000, 1_000_000), floor("states_after_2_steps", 100_000, 1_000_000), floor("states_after_3_steps", 100_000, 1_000_000), floor("states_in_turns_with_capture", 5000, 50_000), floor("stored_board_words_compared", 300_000, 3_000_000)];
+    let mut rep = base_report("states_after_1_steps", "W1/W2/W3/W7 games plus full turn trees at sampled turn starts; at every state piece_board_for_step(i) for 0 <= i <= k is decoded and compared with the board the observer recorded after i steps of this turn, through the per-piece views and word by word (gold, six type words, occupancy). distinct_nontrivial = distinct mid-turn (state, turn-start board) pairs.", floors);
     rep.evaluations_counter = "states_after_1_steps";
     conclude(cfg, sink, rep)
 }
